@@ -335,6 +335,26 @@ theorem ctxGroup_entered {s : Sys} (h : Wf s) (t g : Nat) (hc : ctxGroup (s.task
     exact (h.frames_owner t g' (by rw [hag]; simp)).2
   · exact h.base_entered t g hc
 
+/-- `TaskGroup.__aexit__` begins for the innermost entered async scope of a task that is running code -/
+theorem beginExit_Wf {s : Sys} (h : Wf s) (t b : Nat) (o : Outcome) (rest : List Frame)
+    (hfr : (s.tasks t).frames = ⟨b, true⟩ :: rest)
+    (hst : (s.tasks t).status = .body ∨ ∃ o', (s.tasks t).status = .unwinding o') : Wf (beginExit s t b o) := by
+  have hent : (s.groups b).entered = true := (h.frames_owner t b (by rw [hfr]; simp [asyncGroups_cons])).2
+  unfold beginExit
+  simp only
+  have h1 := Wf_setTask h t (exitTask (s.tasks t) (s.groups b) b) (by
+    unfold exitTask
+    rcases hst with hst | ⟨o', hst⟩ <;> (constructor <;> simp_all [isDone, isLive]))
+  have h2 := Wf_setGroup h1 b (exitGroup (s.tasks t) (s.groups b) o)
+    ⟨rfl, rfl, rfl, fun hh => by simp [hent] at hh⟩ (fun hh => hh)
+  split
+  · exact Wf_abort h2 b (by simp [exitGroup, hent])
+  · exact h2
+
+theorem bodyOutcome_status {T : Task} {o : Outcome} (h : bodyOutcome T = some o) :
+    T.status = .body ∨ ∃ o', T.status = .unwinding o' := by
+  unfold bodyOutcome at h; split at h <;> simp_all
+
 theorem step_Wf {s s' : Sys} {l : Label} (h : Wf s) (hs : step s l = some s') : Wf s' := by
   cases l with
   | rel g =>
@@ -454,11 +474,18 @@ theorem step_Wf {s s' : Sys} {l : Label} (h : Wf s) (hs : step s l = some s') : 
         subst hf
         exact Wf_setTask h t _ (by quiet_fields)
     · simp at hs
-  | enterfail t b =>
+  | enterfail t b o =>
     simp only [step] at hs
     split at hs
-    · rename_i hc; simp only [Option.some.injEq] at hs; subst hs
-      exact Wf_setTask h t _ (by quiet_fields)
+    · rename_i hc
+      split at hs
+      · simp at hs
+      · simp only [Option.some.injEq] at hs; subst hs
+        exact Wf_setTask h t _ (by quiet_fields)
+      · split at hs
+        · simp only [Option.some.injEq] at hs; subst hs
+          exact Wf_setTask h t _ (by quiet_fields)
+        · simp at hs
     · simp at hs
   | spawn t c viaGroup =>
     simp only [step] at hs
@@ -650,19 +677,28 @@ theorem step_Wf {s s' : Sys} {l : Label} (h : Wf s) (hs : step s l = some s') : 
         obtain ⟨hf, hbo⟩ := hc
         subst hf
         simp only [Option.some.injEq] at hs; subst hs
-        have hent : (s.groups b).entered = true := (h.frames_owner t b (by rw [hfr]; simp [asyncGroups_cons])).2
-        have hst : (s.tasks t).status = .body ∨ ∃ o', (s.tasks t).status = .unwinding o' := by
-          unfold bodyOutcome at hbo; split at hbo <;> simp_all
-        unfold beginExit
-        simp only
-        have h1 := Wf_setTask h t (exitTask (s.tasks t) (s.groups b) b) (by
-          unfold exitTask
-          rcases hst with hst | ⟨o', hst⟩ <;> (constructor <;> simp_all [isDone, isLive]))
-        have h2 := Wf_setGroup h1 b (exitGroup (s.tasks t) (s.groups b) o)
-          ⟨rfl, rfl, rfl, fun hh => by simp [hent] at hh⟩ (fun hh => hh)
-        split
-        · exact Wf_abort h2 b (by simp [exitGroup, hent])
-        · exact h2
+        exact beginExit_Wf h t b o rest hfr (bodyOutcome_status hbo)
+      · simp at hs
+    · simp at hs
+  | cleanupEnd t b o consumed =>
+    simp only [step] at hs
+    split at hs
+    · rename_i f rest o0 hfr hbo
+      split at hs
+      · rename_i hf
+        subst hf
+        have hst := bodyOutcome_status hbo
+        split at hs
+        · split at hs
+          · simp only [Option.some.injEq] at hs; subst hs
+            have h1 := Wf_setTask h t { s.tasks t with mustCancel := false } (by
+              rcases hst with hst | ⟨o', hst⟩ <;> (constructor <;> simp_all [isDone, isLive]))
+            exact beginExit_Wf h1 t b .cancelled rest (by simpa using hfr) (by simpa using hst)
+          · simp at hs
+        · split at hs
+          · simp only [Option.some.injEq] at hs; subst hs
+            exact beginExit_Wf h t b o rest hfr hst
+          · simp at hs
       · simp at hs
     · simp at hs
   | left t b o =>
